@@ -46,7 +46,7 @@ ASSUMPTIONS = [
     "constraint orientation L <= t(B) - t(A) <= U; t(GLOBAL_START) = 0; t(GLOBAL_END) = latest instant of the plan",
 ]
 SHARD_TIMEOUT = {"quick": 600, "thorough": 5400}
-BOUNDS = {"quick": dict(n=500, tries=6, keep=2), "thorough": dict(n=16000, tries=8, keep=3)}
+BOUNDS = {"quick": dict(n=500, tries=6, keep=2), "thorough": dict(n=48000, tries=8, keep=3)}
 PROFILE_T = dict(keep_goals=0.15, invariants=0.05, undefined_init=0.03, int_params=0.1, amount_fluents=0.35)
 PROFILE_I = dict(invariants=0.15, undefined_init=0.03, interpreted_functions=0.0, max_depth=1, amount_fluents=0.35)
 
